@@ -83,11 +83,11 @@ REFINE = {
     # property -> Refine/<file>.v whose lemmas tie the generated code (rs2v) to the model
     "C01": ["SigCore", "SigSchemes", "WSig", "WEnum", "G01"], "C02": ["SigCore", "SigSchemes", "WSig", "WCodec", "G02"],
     "C03": ["HelpersR", "Consts", "SigSchemes", "WSig", "WEnum"],
-    "C04": ["HelpersR", "SigCore", "SigSchemes", "PoK", "SignCrypt", "TimeLock", "ElGamal", "WSig", "WPoK", "WEnc"],
+    "C04": ["HelpersR", "SigCore", "SigSchemes", "PoK", "SignCrypt", "TimeLock", "ElGamal", "WSig", "WPoK", "WEnc", "G04"],
     "C05": ["Consts", "SigSchemes", "WSig", "WPoK", "WEnc"],
-    "C06": ["SigCore", "SigSchemes", "WSig", "G06"], "C07": ["SigSchemes", "WSig"], "C08": ["SigCore", "WSig", "G08"],
+    "C06": ["SigCore", "SigSchemes", "WSig", "G06"], "C07": ["SigSchemes", "WSig", "G07"], "C08": ["SigCore", "WSig", "G08"],
     "C09": ["SigSchemes", "WSig", "WCodec", "G09"], "C10": ["PoK", "WPoK", "G10"], "C11": ["HelpersR", "SignCrypt", "WEnc", "G11"],
-    "C12": ["SignCrypt", "SigCore", "WEnc"], "C13": ["HelpersR", "TimeLock", "WEnc", "G13"], "C14": ["ElGamal", "Consts", "WEnc", "G14"],
+    "C12": ["SignCrypt", "SigCore", "WEnc", "G12"], "C13": ["HelpersR", "TimeLock", "WEnc", "G13"], "C14": ["ElGamal", "Consts", "WEnc", "G14"],
     "C15": ["HelpersR", "Consts", "WCodec", "WEnum"], "C16": ["HelpersR", "Consts", "WCodec", "WEnum"], "C17": ["HelpersR", "PoK", "SignCrypt", "TimeLock", "WSig", "WPoK", "WEnc", "WCodec", "WEnum"],
     "C18": ["HelpersR", "Consts", "PoK", "SignCrypt", "TimeLock", "ElGamal", "WEnc", "WCodec"], "C19": ["HelpersR"],
     "C20": ["PoK", "SignCrypt", "TimeLock", "WSig", "WPoK", "WEnc", "WEnum"],
